@@ -330,3 +330,102 @@ func flowsToSink(v ssa.Value) bool {
 	}
 	return rec(v, 0)
 }
+
+// lossyConversions: on encode paths (MarshalTLB / MarshalTL and what they call inside the package)
+// an integer conversion that can change the value (narrowing, or a sign flip at equal width)
+// and whose result reaches a wire writer or math/big.NewInt must be proved value-preserving.
+func (c *Ctx) lossyConversions(exc map[string]string, rels ...string) {
+	const R = "E2.R-lossyconv"
+	for _, f := range c.moduleFuncs(rels...) {
+		root := f
+		for root.Parent() != nil {
+			root = root.Parent()
+		}
+		n := root.Name()
+		if !(strings.HasPrefix(n, "Marshal") || strings.HasPrefix(n, "encode") || strings.HasPrefix(n, "Encode")) {
+			continue
+		}
+		ord := map[string]int{}
+		allInstrs(f, func(b *ssa.BasicBlock, in ssa.Instruction) {
+			cv, ok := in.(*ssa.Convert)
+			if !ok || !isInteger(cv.Type()) || !isInteger(cv.X.Type()) {
+				return
+			}
+			if _, isConst := cv.X.(*ssa.Const); isConst {
+				return
+			}
+			sb, db := intBits(cv.X.Type()), intBits(cv.Type())
+			su, du := isUnsigned(cv.X.Type()), isUnsigned(cv.Type())
+			lossy := db < sb || (db == sb && su != du) || (!su && du)
+			if !lossy {
+				return
+			}
+			// a sign flip at equal (or larger) width keeps the bit pattern: harmless for fixed-width wire
+			// writers, wrong only where the VALUE matters (math/big)
+			signFlipOnly := db >= sb && su != du
+			if !reachesWriter(cv, signFlipOnly) {
+				return
+			}
+			key := fmt.Sprintf("%s %s->%s of %s", fnName(f), cv.X.Type(), cv.Type(), shape(cv.X, 2))
+			ord[key]++
+			if ord[key] > 1 {
+				key = fmt.Sprintf("%s#%d", key, ord[key])
+			}
+			// value-preserving if lo <= x <= hi of the destination type
+			p := c.newProver(f, b)
+			x := p.lin(cv.X)
+			okv := true
+			if du {
+				okv = p.prove(x) // x >= 0
+				if okv && db < 64 {
+					okv = p.prove(x.scale(-1).addConst(int64(1)<<uint(db) - 1))
+				}
+			} else {
+				if db < 64 {
+					okv = p.prove(x.addConst(int64(1)<<uint(db-1))) && p.prove(x.scale(-1).addConst(int64(1)<<uint(db-1)-1))
+				} else {
+					// to int64: only an unsigned 64-bit source can overflow; need x <= MaxInt64, i.e. source narrower or bounded
+					okv = !su || sb < 64 || p.smallUnsigned(cv.X)
+				}
+			}
+			if okv {
+				c.ok(R, key, cv.Pos(), "conversion proved value-preserving at this point")
+			} else if why, ok := exc[key]; ok {
+				c.exc(R, key, cv.Pos(), why)
+			} else {
+				c.bad(R, key, cv.Pos(), fmt.Sprintf("encode path converts %s to %s without a range check and writes the result: values outside the target range are encoded as something else without an error", cv.X.Type(), cv.Type()))
+			}
+		})
+	}
+}
+
+// reachesWriter: the converted value flows (through arithmetic/conversions) into a cell writer,
+// encoding/binary Put*, or math/big.NewInt / SetInt64.
+func reachesWriter(v ssa.Value, valueSinksOnly bool) bool {
+	seen := map[ssa.Value]bool{}
+	var rec func(v ssa.Value, d int) bool
+	rec = func(v ssa.Value, d int) bool {
+		if seen[v] || d > 8 {
+			return false
+		}
+		seen[v] = true
+		for _, r := range realRefs(v) {
+			switch x := r.(type) {
+			case *ssa.Call:
+				q := callQName(&x.Call)
+				if q == "math/big.NewInt" || q == "math/big.Int.SetInt64" || q == "math/big.Int.SetUint64" {
+					return true
+				}
+				if !valueSinksOnly && (strings.HasPrefix(q, bocPath+".Cell.Write") || strings.HasPrefix(q, bocPath+".BitString.Write") || strings.Contains(q, "Endian.PutUint") || strings.Contains(q, "Endian.AppendUint")) {
+					return true
+				}
+			case *ssa.BinOp, *ssa.Convert, *ssa.ChangeType, *ssa.Phi, *ssa.UnOp:
+				if rec(x.(ssa.Value), d+1) {
+					return true
+				}
+			}
+		}
+		return false
+	}
+	return rec(v, 0)
+}
